@@ -5,7 +5,8 @@
    every Go `range` over a map takes its key order as an argument. *)
 From Coq Require Import List Arith NArith Permutation.
 From Falco Require Import Base.Res Gen.InferScopes Model.Include Model.ScopeInfer
-  Proofs.IncludeTotal Proofs.ScopeInferLfp Proofs.ScopeInferTerm Proofs.DetectOrder Proofs.InferMain.
+  Proofs.IncludeTotal Proofs.ScopeInferLfp Proofs.ScopeInferTerm Proofs.DetectOrder Proofs.InferMain
+  Proofs.DeclPerm.
 Import ListNotations.
 
 (* Include expansion terminates within (number of module files + 1) nested calls on EVERY module
@@ -82,6 +83,31 @@ Theorem C11_unused_multiset_order_free :
     Permutation order order' -> Permutation (unused D report order) (unused D report order').
 Proof. exact unused_multiset_order_free. Qed.
 
+(* Permuting the subroutine declarations does not change the inferred scopes (for any key orders),
+   PROVIDED declarations of the same name agree on their explicit scope ([consistent]); registration
+   (first non-Fastly duplicate wins, Fastly names overwrite), buildCallGraph (callees of all
+   declarations of a name) and the initial scopes are those of Model/ScopeInfer.v. *)
+Theorem C11_infer_decl_permutation :
+  forall ds ds' : list decl, Permutation ds ds' -> consistent ds ->
+  forall fuel fuel' orders orders' r r',
+    (forall j, covers (lookup_callees (build_graph ds [])) (orders j)) ->
+    (forall j, covers (lookup_callees (build_graph ds' [])) (orders' j)) ->
+    infer (is_present (register ds [])) (is_explicit (register ds [])) (lookup_callees (build_graph ds []))
+          fuel orders 0 (init_state (register ds [])) = OK r ->
+    infer (is_present (register ds' [])) (is_explicit (register ds' [])) (lookup_callees (build_graph ds' []))
+          fuel' orders' 0 (init_state (register ds' [])) = OK r' ->
+    forall n, r n = r' n.
+Proof. exact infer_decl_permutation. Qed.
+
+(* KNOWN FINDING (known_findings.txt, dup_user_sub_differs): without [consistent] the order of two
+   declarations of the same non-Fastly name is observable *)
+Theorem C11_decl_permutation_refuted :
+  exists ds ds', Permutation ds ds' /\
+    infer_program 10 ds (fun _ k => k) <> infer_program 10 ds' (fun _ k => k).
+Proof. exact decl_permutation_refuted. Qed.
+
+Print Assumptions C11_infer_decl_permutation.
+Print Assumptions C11_decl_permutation_refuted.
 Print Assumptions C11_include_total.
 Print Assumptions C11_include_cycle_reported.
 Print Assumptions C11_include_unrepaired_refuted.
